@@ -43,3 +43,7 @@ def run(rep: Report, repo: Repo, tier: str) -> None:
         protocol.rule_file_level_commands(rep, repo, "C05-R13")
     with rep.isolated():
         protocol.rule_accepted_arities(rep, repo, "C05-R12")
+    # every endfunction()/endmacro()/cpp_end_class() of a balanced file finds the element its opening command pushed: a definition
+    # event that returns without its push makes the matching end command pop an empty stack (IndexError on a valid file)
+    with rep.isolated():
+        protocol.rule_defstack(rep, repo, "C05-R14")
